@@ -125,3 +125,13 @@ func init() {
 		Bounds: map[string]interface{}{"header_bytes": "all 2^192 values of the first 24 bytes (no bound)", "suffix_len": "0..8 bytes case-split for Buf; streams up to 40 bytes for Scan/ScanBuf/ReadAt", "short_streams": "every length 0..23"},
 	})
 }
+
+func init() {
+	register(&CheckDef{ID: "C12", Level: "model_checking", Timeout: [2]int{400, 1500},
+		Assumptions: []string{
+			"input stream model zzMemReader (DESIGN.md section 5); bufio.Reader interpreted from its real SSA",
+			"signature predicate zzSpecSig written from TIFF 6.0 section 2 (II*\\0 / MM\\0*)",
+		},
+		Bounds: map[string]interface{}{"prefix_len": "0..9 bytes quick, 0..12 thorough, every byte value (superset of the five-letter alphabet)", "after_header": "3 arbitrary trailing bytes", "nosig_stream_len": "<= 34 quick / 37 thorough, every length and terminal error", "outside": "prefixes longer than the bound (the 1-or-2-byte advance loop is position independent but that is not proved here)"},
+	})
+}
